@@ -178,19 +178,20 @@ bool same_loaded(const Loaded& a, const Loaded& b) {
 
 // chunk == 0: fmemopen over an exact-size heap copy; chunk > 0: cookie stream delivering `chunk` bytes per read,
 // seekable or not (a non-seekable cookie stream behaves like a pipe: fseek fails with ESPIPE);
-// fail_at >= 0: the read call that would deliver byte `fail_at` fails once with EINTR (no bytes delivered), later reads work
+// fail_at >= 0: the medium fails at that offset - the read call that would deliver byte `fail_at` and every later read
+// return -1/EIO (to the library this is a truncation that shows as ferror() instead of feof())
 struct FaultCookie : Cookie {
   ssize_t fail_at = -1;
   bool failed = false;
 };
 ssize_t fault_cookie_read(void* c, char* buf, size_t size) {
   FaultCookie* k = (FaultCookie*)c;
-  if (k->fail_at >= 0 && !k->failed && k->pos <= (size_t)k->fail_at) {
+  if (k->fail_at >= 0) {
     size_t avail = k->pos < k->n ? k->n - k->pos : 0;
     size_t m = std::min(std::min(size, avail), k->chunk);
-    if (k->pos + m > (size_t)k->fail_at) {
+    if (k->failed || k->pos + m > (size_t)k->fail_at) {
       k->failed = true;
-      errno = EINTR;
+      errno = EIO;
       return -1;
     }
   }
@@ -722,23 +723,25 @@ string make_variant(const Kind& k, int w, int h, int pat, Pic& pic) {
 // dump files for the Python stage
 
 struct Dump {
-  FILE* f = nullptr;
+  int fd = -1;
   void open(vf::Run& r) {
     const char* d = getenv("VF_OUTDIR");
     if (r.only >= 0 || !d) return;
-    // one file per (section, shard); a shard restarted after a crash appends
+    // one file per (section, shard); a shard restarted after a crash appends.  Every record is handed to the kernel
+    // in one write(): a process that dies (sanitizer abort in the code under test) leaves whole records only.
     string p = vf::fmt("%s/%s.%llu.dat", d, r.section.c_str(), (unsigned long long)r.shard);
-    f = fopen(p.c_str(), "ab");
+    fd = ::open(p.c_str(), O_WRONLY | O_CREAT | O_APPEND, 0644);
   }
   void rec(const string& json, const string& file, const string& expect) {
-    if (!f) return;
+    if (fd < 0) return;
     uint32_t h[4] = {0x31524656, (uint32_t)json.size(), (uint32_t)file.size(), (uint32_t)expect.size()};
-    fwrite(h, 4, 4, f);
-    fwrite(json.data(), 1, json.size(), f);
-    fwrite(file.data(), 1, file.size(), f);
-    fwrite(expect.data(), 1, expect.size(), f);
+    string all((const char*)h, sizeof(h));
+    all += json;
+    all += file;
+    all += expect;
+    write_all(fd, (const uint8_t*)all.data(), all.size());
   }
-  ~Dump() { if (f) fclose(f); }
+  ~Dump() { if (fd >= 0) close(fd); }
 };
 
 string scratch_dir() {
@@ -1057,12 +1060,12 @@ string check_prefix(const string& file, size_t n, const Pic& pic) {
     string c = compare_loaded(N, pic, true);
     if (!c.empty()) return "FAIL non-seekable-accepted-differently\tthe truncated file, read from a stream that cannot seek, was accepted but " + c.substr(c.find('\t') + 1);
   }
-  // I/O fault instead of end of file: the read that would deliver byte n fails once (EINTR) on the complete file
+  // I/O fault instead of end of file: the medium fails at offset n (that read and every later one return EIO)
   Loaded E = load_bytes((const uint8_t*)file.data(), file.size(), 1, true, (ssize_t)n);
-  if (E.outcome == "nonstd") return "FAIL nonstd-exception\tload with a failing read ended with a non-standard exception";
+  if (E.outcome == "nonstd") return "FAIL nonstd-exception\tload from a failing medium ended with a non-standard exception";
   if (E.outcome == "ok") {
     string c = compare_loaded(E, pic, true);
-    if (!c.empty()) return "FAIL read-error-accepted-differently\tthe read covering offset " + std::to_string(n) + " failed once with EINTR; the file was accepted but " + c.substr(c.find('\t') + 1);
+    if (!c.empty()) return "FAIL read-error-accepted-differently\tevery read from offset " + std::to_string(n) + " on failed with EIO; the file was accepted but " + c.substr(c.find('\t') + 1);
   }
   return cls;
 }
@@ -1171,7 +1174,7 @@ VF_SECTION(truncate, 16, 16, 90) {
   }
   r.counters["files"] = r.shard == 0 ? nfiles : 0;
   r.bound = vf::fmt("every prefix length 0..len-1 of %llu files (the core container variants over %zu dims, the extra ones over 2 dims, phosg's own PPM/BMP output; longest file %zu bytes), "
-                    "each prefix from a memory stream and from a non-seekable short-read stream, plus a one-off read error (EINTR) at the same offset of the complete file",
+                    "each prefix from a memory stream and from a non-seekable short-read stream, and from a medium that fails with EIO from the same offset on",
       (unsigned long long)nfiles, dims.size(), maxlen);
 }
 
